@@ -40,14 +40,16 @@ REQUIRED_COUNTERS = {   # ~40 % of what the unchanged tree produces (determinist
               "dblquad_quadratures": 3, "logd_offset_checked": 3000, "pdf_vs_logpdf_checked": 600, "mrf_value_checked": 500,
               "gmrf_constant_checked": 100, "mhn_difference_checked": 20, "conditioned_value_checked": 500,
               "threshold_embedding_checked": 170, "reassign_history_checked": 500, "compute_cov_checked": 600,
-              "cdf_dblquad_checked": 10, "gaussian_cdf_forms_agree_checked": 80},
+              "cdf_dblquad_checked": 10, "gaussian_cdf_forms_agree_checked": 80, "scaled_constant_checked": 500,
+              "scaled_quadratic_checked": 800, "boundary_value_checked": 40},
     "thorough": {"logpdf_value_checked": 5000, "gaussian_form_value_checked": 20000, "gaussian_forms_agree_checked": 20000,
                  "gaussian_logdet_checked": 7000, "gaussian_reassign_checked": 3000, "outside_support_checked": 2000,
                  "cdf_value_checked": 3500, "normalisation_quadratures": 130, "slice_quadratures": 800, "cdf_quadratures": 150,
                  "dblquad_quadratures": 30, "logd_offset_checked": 28000, "pdf_vs_logpdf_checked": 6000, "mrf_value_checked": 1500,
                  "gmrf_constant_checked": 300, "mhn_difference_checked": 150, "conditioned_value_checked": 6000,
                  "threshold_embedding_checked": 700, "reassign_history_checked": 2500, "compute_cov_checked": 5000,
-                 "cdf_dblquad_checked": 80, "gaussian_cdf_forms_agree_checked": 600},
+                 "cdf_dblquad_checked": 80, "gaussian_cdf_forms_agree_checked": 600, "scaled_constant_checked": 2000,
+                 "scaled_quadratic_checked": 3000, "boundary_value_checked": 160},
 }
 BUDGET_S = {"quick": 200.0, "thorough": 1500.0}
 
@@ -117,6 +119,22 @@ def cases(tier, seed):
         for kind_ in kinds:
             for rep in range(2 if tier == "quick" else 8):
                 out.append({"kind": "embed", "param": param, "sqrt_kind": kind_, "rep": rep})
+    # extreme-but-legal scales: Sigma = 10^k * Sigma0 with strong correlations
+    for d in ((2, 4, 30, 75, 76) if tier == "quick" else (2, 3, 4, 9, 30, 74, 75, 76, 77, 120)):
+        for k10 in (-16, -12, -10, -8, -6, -4, 0, 4, 8, 12, 16):
+            for struct in ("full", "diag"):
+                for rep in range(1 if tier == "quick" else 2):
+                    out.append({"kind": "gscale", "dim": d, "log10_scale": k10, "struct": struct, "rep": rep})
+    # evaluation exactly on the edge of the support / at the kink
+    for fam, classes, edges in (("Gamma", ("lt1", "eq1", "gt1"), ("lower",)), ("InverseGamma", ("lt1", "eq1", "gt1"), ("lower",)),
+                                ("Beta", ("lt1", "eq1", "gt1"), ("lower", "upper")), ("Uniform", ("-",), ("lower", "upper")),
+                                ("Lognormal", ("-",), ("lower",)), ("Laplace", ("-",), ("centre",)),
+                                ("SmoothedLaplace", ("-",), ("centre",)), ("Cauchy", ("-",), ("centre",)), ("Normal", ("-",), ("centre",))):
+        for cls in classes:
+            for edge in edges:
+                for d in (1, 3):
+                    for rep in range(2 if tier == "quick" else 8):
+                        out.append({"kind": "boundary", "family": fam, "cls": cls, "edge": edge, "dim": d, "rep": rep})
     # re-assignment histories of the mutable parameters of an existing object
     for fam in UNI_FAMS + ("Lognormal", "Gaussian", "GMRF", "LMRF", "CMRF"):
         for form in ("scalar1", "array") if fam not in ("GMRF", "LMRF", "CMRF") else ("array", "scalar_loc"):
@@ -132,7 +150,7 @@ def cases(tier, seed):
     return out
 
 def crash_config(case):
-    return {k: case[k] for k in ("kind", "family", "pform", "struct", "bc", "order", "pd", "covform", "which", "param", "sqrt_kind", "form") if k in case}
+    return {k: case[k] for k in ("kind", "family", "pform", "struct", "bc", "order", "pd", "covform", "which", "param", "sqrt_kind", "form", "cls", "edge", "log10_scale") if k in case}
 
 # ----------------------------------------------------------------------------- helpers
 
@@ -1222,6 +1240,155 @@ def _run_embed(case, ctx, rs):
                 break
     ctx.nontrivial(f"embed/{param}/{kind}")
 
+# ----------------------------------------------------------------------------- extreme scales
+
+def _run_gscale(case, ctx, rs):
+    """Sigma = s*Sigma0 (s = 10^k, strong correlations). Reference in log space from Sigma0:
+    logpdf(mean) = -0.5*(d log 2pi + log det Sigma0 + d log s);  logpdf(x) - logpdf(mean) = -(x-m)^T Sigma0^-1 (x-m) / (2 s)."""
+    import cuqi
+    import scipy.sparse as sp
+    d, k10, struct = case["dim"], case["log10_scale"], case["struct"]
+    s = 10.0 ** k10
+    side = "sparse" if d > cuqi.config.MIN_DIM_SPARSE else "dense"
+    std = rs.uniform(0.5, 2.0, d)
+    if struct == "full":
+        rho = float(rs.uniform(0.4, 0.8))
+        S0 = np.outer(std, std) * ((1 - rho) * np.eye(d) + rho * np.ones((d, d)))
+    else:
+        S0 = np.diag(std ** 2)
+    P0 = np.linalg.inv(S0); P0 = (P0 + P0.T) / 2
+    ld0 = float(np.linalg.slogdet(S0)[1])
+    mu = rs.uniform(-1, 1, d) if case["rep"] % 2 == 0 else np.zeros(d)
+    L0 = np.linalg.cholesky(S0)
+    xs = [mu + math.sqrt(s) * (L0 @ rs.standard_normal(d)) for _ in range(2)]
+    const_ref = -0.5 * (d * R.LOG2PI + ld0 + d * math.log(s))
+    rs_, rp_ = math.sqrt(s), 1.0 / math.sqrt(s)
+    E = []
+    if struct == "full":
+        Ssq, Psq, Up = _sym_sqrt(S0), _sym_sqrt(P0), np.linalg.cholesky(P0).T
+        for param, M in (("cov", s * S0), ("prec", P0 / s), ("sqrtcov", rs_ * Ssq), ("sqrtprec", rp_ * Psq)):
+            E.append((param, "dense", "sym" if param.startswith("sqrt") else "-", M, False))
+            E.append((param, "list2d", "sym" if param.startswith("sqrt") else "-", M.tolist(), False))
+            E.append((param, "sp_csr_full", "sym" if param.startswith("sqrt") else "-", sp.csr_matrix(M), True))
+        E.append(("sqrtprec", "dense", "upper", rp_ * Up, False))
+    else:
+        v = std ** 2
+        for param, vec in (("cov", s * v), ("prec", 1 / (s * v)), ("sqrtcov", rs_ * std), ("sqrtprec", rp_ / std)):
+            E.append((param, "vector", "-", vec.copy(), False))
+            E.append((param, "diag_dense", "-", np.diag(vec), False))
+            E.append((param, "sp_csr_diag", "-", sp.diags(vec, format="csr"), False))
+            E.append((param, "sp_dia_diag", "-", sp.diags(vec), False))
+    for param, storage, kind, value, may in E:
+        cfg = {"kind": "gscale", "family": "Gaussian", "param": param, "storage": storage, "sqrt_kind": kind, "struct": struct,
+               "side": side, "log10_scale": k10}
+        k, g = _val(ctx, "construct", cuqi.distribution.Gaussian, mu.copy(), may_refuse=may, cfg=cfg, name="x", **{param: value})
+        if k is None:
+            continue
+        k, v = _val(ctx, "logpdf", g.logpdf, mu.copy(), may_refuse=may, cfg=cfg)
+        if k is None:
+            continue
+        c_obs = _scalar(v)
+        ctx.count("scaled_constant_checked")
+        ctx.nontrivial(f"gscale/{param}/{storage}/{side}")
+        if not _close(c_obs, const_ref, rtol=1e-9, atol=1e-8):
+            mech = "gaussian_scaled_constant_mismatch"
+            if side == "dense" and struct == "full" and storage in ("dense", "list2d"):
+                # hypothesis of a known defect: the dense branch takes log(det(M)) - det under/overflows although log det is moderate
+                M = np.asarray(value, dtype=float)
+                with np.errstate(all="ignore"):
+                    A = M if param in ("cov", "prec") else M @ M.T
+                    ldh = float(np.log(np.linalg.det(A)))
+                    ldh = ldh if param in ("cov", "sqrtcov") else -ldh
+                hyp = -0.5 * (d * R.LOG2PI + ldh)
+                if (c_obs is not None) and (_close(c_obs, hyp, rtol=1e-9, atol=1e-8) or (math.isnan(c_obs) and math.isnan(hyp))):
+                    mech = "gaussian_dense_logdet_via_det_overflows"
+            ctx.violation(mech, cfg, detail=f"dim={d} Sigma=1e{k10}*Sigma0 ({param}/{storage}): logpdf(mean) = {c_obs!r}; "
+                                            f"-0.5*(d log 2pi + log det Sigma) = {const_ref!r}")
+        if c_obs is None or not math.isfinite(c_obs):
+            continue
+        for x in xs:
+            dev = x - mu                                   # the representable deviation (what the library sees)
+            qref = -0.5 * float(dev @ P0 @ dev) / s
+            k, v = _val(ctx, "logpdf", g.logpdf, x.copy(), cfg=cfg)
+            if k is None:
+                break
+            ctx.count("scaled_quadratic_checked")
+            got = _scalar(v) - c_obs
+            if not (abs(got - qref) <= 1e-6 * max(1.0, abs(qref)) + 1e-7 * abs(c_obs) * 1e-2):
+                ctx.violation("gaussian_scaled_quadratic_mismatch", cfg,
+                              detail=f"dim={d} Sigma=1e{k10}*Sigma0 ({param}/{storage}): logpdf(x)-logpdf(mean) = {got!r}; "
+                                     f"-(x-m)^T Sigma^-1 (x-m)/2 = {qref!r}")
+                break
+        if d <= 30 and not storage.startswith("sp_"):
+            k, C = _val(ctx, "compute_cov", g.compute_cov, cfg=cfg)
+            if k is not None:
+                C = np.asarray(C, dtype=float)
+                ctx.count("compute_cov_checked")
+                if C.shape != (d, d) or not np.allclose(C / s, S0, rtol=0, atol=1e-6 * float(np.max(S0))):
+                    ctx.violation("compute_cov_differs_from_density", cfg, detail=f"dim={d} Sigma=1e{k10}*Sigma0: compute_cov()/s differs from Sigma0")
+
+# ----------------------------------------------------------------------------- exactly on the edge of the support
+
+def _run_boundary(case, ctx, rs):
+    """One coordinate exactly on the closed/open edge of the support (or on the kink / location); value = the documented
+    expression evaluated there (its limit), pdf = exp(logpdf), cdf = integral up to the edge."""
+    import cuqi
+    fam, cls, edge, d = case["family"], case["cls"], case["edge"], case["dim"]
+    cfg = {"kind": "boundary", "family": fam, "cls": cls, "edge": edge, "dim_gt1": d > 1}
+    i = int(rs.randint(d))
+    clsval = {"lt1": float(rs.uniform(0.3, 0.9)), "eq1": 1.0, "gt1": float(rs.uniform(1.2, 5.0)), "-": None}[cls]
+    if fam == "Lognormal":
+        mu = rs.uniform(-1, 1, d); v = _logu(rs, 0.2, 2.0, d)
+        k, dist = _val(ctx, "construct", cuqi.distribution.Lognormal, float(mu[0]) if d == 1 else mu.copy(),
+                       float(v[0]) if d == 1 else v.copy(), cfg=cfg, name="x")
+        if k is None:
+            return
+        x = np.exp(mu + np.sqrt(v) * rs.uniform(-1, 1, d)); x[i] = 0.0
+        ref = -np.inf
+        judge, P = True, None
+    else:
+        roles = _roles(fam, "scalar1" if d == 1 else "array")
+        P = _draw_params(fam, roles, d, rs)
+        if clsval is not None:
+            pname = {"Gamma": "shape", "InverseGamma": "shape", "Beta": "alpha" if edge == "lower" else "beta"}[fam]
+            P[pname] = P[pname].copy(); P[pname][i] = clsval
+        arg = lambda p: (float(P[p][0]) if (roles[p] == "s" or d == 1) else P[p].copy())
+        k, dist = _val(ctx, "construct", getattr(cuqi.distribution, fam), cfg=cfg, name="x", **{p: arg(p) for p in R.UNI[fam]["params"]})
+        if k is None:
+            return
+        lo, hi = _support(fam, P)
+        x = _interior(fam, P, d, rs)
+        x[i] = lo[i] if edge == "lower" else (hi[i] if edge == "upper" else _centre(fam, P)[i])
+        ref = R.indep_logpdf(fam, x, P)
+        # Beta: the class states no support and the implementation is open at both ends; where the documented expression
+        # has a non-zero limit at the edge (alpha<=1 at 0, beta<=1 at 1) the value on that null set is not judged.
+        judge = not (fam == "Beta" and cls in ("lt1", "eq1"))
+    for as_float in ((True, False) if d == 1 else (False,)):
+        xin = float(x[0]) if as_float else x.copy()
+        k, v = _val(ctx, "logpdf", dist.logpdf, xin, cfg=cfg)
+        if k is None:
+            return
+        got = _scalar(v)
+        if judge:
+            ctx.count("boundary_value_checked")
+            if not _close(got, ref):
+                ctx.violation("density_value_at_support_boundary", cfg,
+                              detail=f"{fam} ({cls}, {edge} edge, dim {d}): logpdf({x.tolist()}) = {got!r}; documented density there {ref!r}"
+                                     + (f"; params { {k_: v_.tolist() for k_, v_ in P.items()} }" if P else ""))
+        else:
+            ctx.count("boundary_value_not_judged")
+        k, pv = _val(ctx, "pdf", dist.pdf, xin, cfg=cfg)
+        if k is not None and got is not None and not math.isnan(got):
+            ctx.count("pdf_vs_logpdf_checked")
+            e = math.inf if got == math.inf else math.exp(got)
+            if not _close(_scalar(pv), e, rtol=1e-9, atol=1e-300):
+                ctx.violation("pdf_vs_logpdf", cfg, detail=f"at the edge: pdf={_scalar(pv)!r} exp(logpdf)={e!r}")
+    if fam in HAS_CDF:
+        k, v = _val(ctx, "cdf", dist.cdf, x.copy(), cfg=cfg)
+        if k is not None:
+            _judge_cdf(ctx, fam, cfg, x, _scalar(v), P)
+    ctx.nontrivial(f"boundary/{fam}/{cls}/{edge}")
+
 # ----------------------------------------------------------------------------- re-assignment histories
 
 def _sequences(names):
@@ -1382,6 +1549,10 @@ def run_case(case, ctx):
             _run_user(case, ctx, rs)
         elif kind == "embed":
             _run_embed(case, ctx, rs)
+        elif kind == "gscale":
+            _run_gscale(case, ctx, rs)
+        elif kind == "boundary":
+            _run_boundary(case, ctx, rs)
         elif kind == "reassign":
             _run_reassign(case, ctx, rs)
         else:
